@@ -1,6 +1,7 @@
 import Driver.Mgr
 import Driver.Table
 import Driver.Expr
+import Driver.OptD
 /-! `xdriver <suite>`: one JSON object per input line, one JSON object per output line. -/
 open Lean
 
@@ -36,11 +37,20 @@ partial def loopExpr (h : IO.FS.Stream) (out : IO.FS.Stream) (n : Nat) : IO Unit
   | .ok j => out.putStrLn ((DExpr.step j).setObjVal! "n" n).compress
   loopExpr h out (n+1)
 
+partial def loopOpt (h : IO.FS.Stream) (out : IO.FS.Stream) (n : Nat) : IO Unit := do
+  let line ← h.getLine
+  if line.isEmpty then return ()
+  match Json.parse line with
+  | .error e => out.putStrLn (Json.mkObj [("n", n), ("bad-op", .str ("parse: " ++ e))]).compress
+  | .ok j => out.putStrLn ((DOpt.step j).setObjVal! "n" n).compress
+  loopOpt h out (n+1)
+
 def main (args : List String) : IO UInt32 := do
   let stdin ← IO.getStdin
   let stdout ← IO.getStdout
   match args with
   | ["mgr"] => loopMgr stdin stdout Manager.MState.init 0; return 0
+  | ["opt"] => loopOpt stdin stdout 0; return 0
   | ["expr"] => loopExpr stdin stdout 0; return 0
   | ["table"] => loopTable stdin stdout DTable.emptyTbl 0; return 0
   | _ => IO.eprintln "usage: xdriver <suite>"; return 2
